@@ -401,8 +401,30 @@ def injectivity_pairs(rng):
             yield text, 'S', types['S'], rt, {'s': 'x" y'}, {'s': 'x"" y'}, ind
             yield text, 'S', types['S'], rt, {'s': '"'}, {'s': '""'}, ind
             yield text, 'C', types['C'], rt, ('a', 'q'), ('a', 'q"'), ind
-    for _ in range(0):
-        yield None
+    # BIT STRING and OCTET STRING of every length up to 72 bits / 12 octets (bstring vs hstring forms, the digit
+    # count of a hex form), at top level, as a component and as an alternative
+    text = ('M DEFINITIONS AUTOMATIC TAGS ::= BEGIN\nB ::= BIT STRING\n'
+            'S2 ::= SEQUENCE { b BIT STRING, o OCTET STRING }\nC2 ::= CHOICE { b BIT STRING, n NULL }\nEND\n')
+    bt = {'k': 'BIT STRING', 'size': None, 'named': None}
+    ot = {'k': 'OCTET STRING', 'size': None}
+    types = {'B': bt,
+             'S2': {'k': 'SEQUENCE', 'root': [{'name': 'b', 't': bt, 'opt': None}, {'name': 'o', 't': ot, 'opt': None}], 'ext': None},
+             'C2': {'k': 'CHOICE', 'root': [{'name': 'b', 't': bt, 'opt': None}, {'name': 'n', 't': {'k': 'NULL'}, 'opt': None}],
+                    'ext': None}}
+    rt = lambda t: t
+
+    def bits(n, extra=0):
+        data = bytearray((37 * i + 0x12) % 256 for i in range((n + 7) // 8))
+        if n % 8:
+            data[-1] &= (0xff << (8 - n % 8)) & 0xff
+        m = n + extra
+        data += bytes((m + 7) // 8 - len(data))
+        return (bytes(data), m)
+    for n in range(0, 73):
+        ind = INDENTS[n % len(INDENTS)]
+        yield text, 'B', types['B'], rt, bits(n), bits(n, 4), ind
+        yield text, 'S2', types['S2'], rt, {'b': bits(n), 'o': bytes(range(n % 13))}, {'b': bits(n, 1), 'o': bytes(range(n % 13))}, ind
+        yield text, 'C2', types['C2'], rt, ('b', bits(n)), ('b', bits(n, 8)), ind
 
 
 def probe_injectivity(ctx, rounds):
